@@ -239,12 +239,22 @@ def judgeFramesD (ct ot : List String) : Option Verdict := do
 
 /-- live endpoints: the model has nothing to add to the observation (the class is an input of
 the environment: crypto, timing); the spec is the judge -/
-def judgeLive (ot : List String) : Option Verdict := do
+def judgeLive (ct ot : List String) : Option Verdict := do
   let cls ← kv ot "out"
   if cls == "setup" || cls == "badcase" then none else
   let n (k : String) : Nat := ((kv ot k).bind String.toNat?).getD 0
+  -- floods of non-advancing records: the limit is documented for every such record on the stream
+  -- stack (each costs a recursion) and for warning alerts on the datagram stack (empty records
+  -- are dropped there by the loop itself)
+  let fn := (kv ct "fn").getD ""
+  let kind := (kv ct "kind").getD ""
+  let stack := (kv ct "stack").getD ""
+  let useless : Nat :=
+    if fn == "live_flood" && ((stack == "tlcp" && (kind == "warn" || kind == "empty" || kind == "mix")) || (stack == "dtlcp" && kind == "warn"))
+    then ((kv ct "n").bind String.toNat?).getD 0 else 0
   let obs : Robust.Obs := { cls := cls, stalled := (kv ot "stalled").getD "0" == "1", hand := n "hand", raw := n "raw",
-                            pending := n "pend", pendingBytes := n "pendb", hsCalls := max 1 (n "hs") }
+                            pending := n "pend", pendingBytes := n "pendb", hsCalls := max 1 (n "hs"),
+                            uselessRun := useless, stackGrowth := n "stackd" }
   pure { model := render ot, spec := Robust.verdict obs, trivial := false }
 
 def judge (c o : String) : Option Verdict := do
@@ -255,7 +265,7 @@ def judge (c o : String) : Option Verdict := do
   else if fn.startsWith "rec_" then judgeRec fn ct ot
   else if fn == "frames" then judgeFrames ct ot
   else if fn == "framesd" then judgeFramesD ct ot
-  else if fn.startsWith "live_" then judgeLive ot
+  else if fn.startsWith "live_" then judgeLive ct ot
   else none
 
 end Gotlcp.Oracle.C09
